@@ -19,8 +19,8 @@ TECHNIQUE = "state-invariant hook around every operation of random histories on 
 LEVEL_TEXT = ("Random histories of 60-400 operations (add_row, read, repr/str, deepcopy-read, reseeding / drawing from NumPy's global generator) "
               "on both variants, including requested sizes whose internal size is larger (20->33, 64->65, 100->129) and histories longer than "
               "the internal buffer; after every operation the exposed shape, finiteness, the exact one-row shift, the predicted new row "
-              "(observed map applied to the recorded draws), every other attribute and the generator state are checked. Stability: "
-              "rho(F) < 1 and the Stein residual for the observed (A, B), contraction with zero innovations from hostile screens "
+              "(observed map applied to the recorded draws), every other attribute and the generator state are checked; the innovation of every row is recovered from the observed row and must be a fresh run of the object's own stream (650-row runs). Stability: "
+              "rho(F) < 1, decay of a constant offset and the Stein residual for the observed (A, B) down to pixel scales of 1.6e-5 L0 (below 1e-5 L0: known finding), contraction with zero innovations from hostile screens "
               "(constant 1e6, checkerboard, spike, noise) for 200-2000 rows, finiteness for 1000-5000 rows with innovations. 'However many "
               "rows' is restated as this bounded progress. Exploration over histories.")
 LEVEL_NOTE = "Trusted: aomon/oracles/vk.py, NumPy eigenvalues. Stability is claimed (and checked) for the von Karman variant only."
